@@ -16,6 +16,9 @@ type ModSet struct {
 	all       bool
 	allocates bool
 	cells     map[string]types.Type // memory name -> cell type
+	// fresh: memories written only inside objects allocated during the call/loop; cells that
+	// existed before keep their values (frame), see havocMods
+	fresh map[string]types.Type
 	maps      map[string]*types.Map // typeKey(map type) -> map type
 	// field-level record for frame checks: "T.f" (struct field), "elem:T" (slice/array element), "deref:T"
 	sites map[string][]string // what -> positions
@@ -24,7 +27,7 @@ type ModSet struct {
 }
 
 func newModSet() *ModSet {
-	return &ModSet{cells: map[string]types.Type{}, maps: map[string]*types.Map{}, sites: map[string][]string{}, unknown: map[string]bool{}}
+	return &ModSet{fresh: map[string]types.Type{}, cells: map[string]types.Type{}, maps: map[string]*types.Map{}, sites: map[string][]string{}, unknown: map[string]bool{}}
 }
 
 func (m *ModSet) union(o *ModSet) {
@@ -35,6 +38,12 @@ func (m *ModSet) union(o *ModSet) {
 	m.allocates = m.allocates || o.allocates
 	for k, v := range o.cells {
 		m.cells[k] = v
+		delete(m.fresh, k)
+	}
+	for k, v := range o.fresh {
+		if _, hard := m.cells[k]; !hard {
+			m.fresh[k] = v
+		}
 	}
 	for k, v := range o.maps {
 		m.maps[k] = v
@@ -82,6 +91,23 @@ func (m *ModSet) memNames(vc *VC) []string {
 	for _, mt := range m.maps {
 		d, v := vc.enc.mapMems(mt)
 		out = append(out, d, v)
+	}
+	sort.Strings(out)
+	return out
+}
+
+// freshNames: memories written only inside fresh objects.
+func (m *ModSet) freshNames(vc *VC) []string {
+	var out []string
+	if m.all {
+		return nil
+	}
+	for name, t := range m.fresh {
+		if _, hard := m.cells[name]; hard {
+			continue
+		}
+		vc.enc.registerMem(name, t)
+		out = append(out, name)
 	}
 	sort.Strings(out)
 	return out
@@ -195,16 +221,7 @@ func (p *Prog) computeModSet(f *ssa.Function, ms *ModSet, visiting map[*ssa.Func
 				if a, ok := x.Addr.(*ssa.Alloc); ok && !a.Heap {
 					continue
 				}
-				if fa, ok := x.Addr.(*ssa.FieldAddr); ok && isCellType(elem) {
-					stT := fa.X.Type().Underlying().(*types.Pointer).Elem()
-					if fm := p.fieldMem(stT, fa.Field); fm != "" {
-						ms.cells[fm] = elem
-					} else {
-						ms.addCellsOf(elem)
-					}
-				} else {
-					ms.addCellsOf(elem)
-				}
+				ms.addStore(p, x.Addr, elem, nil)
 				ms.sites[storeTarget(x.Addr)] = append(ms.sites[storeTarget(x.Addr)], pos(x))
 			case *ssa.MapUpdate:
 				mt := x.Map.Type().Underlying().(*types.Map)
@@ -228,6 +245,55 @@ func (p *Prog) computeModSet(f *ssa.Function, ms *ModSet, visiting map[*ssa.Func
 			sub := p.ModSetOf(a)
 			ms.union(sub)
 		}
+	}
+}
+
+// freshRoot: the address is inside an object allocated by `within` (nil: anywhere in the
+// function): the chain of FieldAddr/IndexAddr ends in an Alloc, or in a slice made by MakeSlice.
+func freshRoot(addr ssa.Value, within map[*ssa.BasicBlock]bool) bool {
+	for depth := 0; depth < 16; depth++ {
+		switch a := addr.(type) {
+		case *ssa.FieldAddr:
+			addr = a.X
+		case *ssa.IndexAddr:
+			addr = a.X
+		case *ssa.Slice:
+			addr = a.X
+		case *ssa.Alloc:
+			return within == nil || within[a.Block()]
+		case *ssa.MakeSlice:
+			return within == nil || within[a.Block()]
+		default:
+			return false
+		}
+	}
+	return false
+}
+
+// addStore records a store of a value of type elem through addr.
+func (m *ModSet) addStore(p *Prog, addr ssa.Value, elem types.Type, within map[*ssa.BasicBlock]bool) {
+	tmp := newModSet()
+	if fa, ok := addr.(*ssa.FieldAddr); ok && isCellType(elem) {
+		stT := fa.X.Type().Underlying().(*types.Pointer).Elem()
+		if fm := p.fieldMem(stT, fa.Field); fm != "" {
+			tmp.cells[fm] = elem
+		} else {
+			tmp.addCellsOf(elem)
+		}
+	} else {
+		tmp.addCellsOf(elem)
+	}
+	if freshRoot(addr, within) {
+		for k, v := range tmp.cells {
+			if _, hard := m.cells[k]; !hard {
+				m.fresh[k] = v
+			}
+		}
+		return
+	}
+	for k, v := range tmp.cells {
+		m.cells[k] = v
+		delete(m.fresh, k)
 	}
 }
 
@@ -359,24 +425,29 @@ func (vc *VC) loopModSet(fr *frame, l *LoopInfo) *ModSet {
 			switch x := in.(type) {
 			case *ssa.Store:
 				elem := x.Addr.Type().Underlying().(*types.Pointer).Elem()
-				if fa, ok := x.Addr.(*ssa.FieldAddr); ok && isCellType(elem) {
-					stT := fa.X.Type().Underlying().(*types.Pointer).Elem()
-					if fm := vc.prog.fieldMem(stT, fa.Field); fm != "" {
-						ms.cells[fm] = elem
-						continue
-					}
-				}
-				ms.addCellsOf(elem)
+				ms.addStore(vc.prog, x.Addr, elem, l.blocks)
 			case *ssa.MapUpdate:
 				mt := x.Map.Type().Underlying().(*types.Map)
 				ms.maps[typeKey(mt)] = mt
 			case *ssa.Alloc:
 				ms.allocates = true
 				elem := x.Type().Underlying().(*types.Pointer).Elem()
-				ms.addCellsOf(elem)
+				tmp := newModSet()
+				tmp.addCellsOf(elem)
+				for k, v := range tmp.cells {
+					if _, hard := ms.cells[k]; !hard {
+						ms.fresh[k] = v
+					}
+				}
 			case *ssa.MakeSlice:
 				ms.allocates = true
-				ms.addCellsOf(x.Type().Underlying().(*types.Slice).Elem())
+				tmp := newModSet()
+				tmp.addCellsOf(x.Type().Underlying().(*types.Slice).Elem())
+				for k, v := range tmp.cells {
+					if _, hard := ms.cells[k]; !hard {
+						ms.fresh[k] = v
+					}
+				}
 			case *ssa.MakeMap:
 				ms.allocates = true
 				mt := x.Type().Underlying().(*types.Map)
